@@ -72,6 +72,11 @@ def configs(tier, seed):
     for n in (range(0, 6) if tier == 'quick' else range(0, 9)):
         for M in ([2, 4] if tier == 'quick' else [1, 2, 3, 4, 7]):
             out.append(('wsgi', n, M, True, None))
+    # other ways a handler gets at the body: through request.copy(), lazily from the generator it returns, not at all
+    for n in ((1, 3, 5) if tier == 'quick' else range(0, 8)):
+        for M in ([2, 4] if tier == 'quick' else [1, 2, 4, 7]):
+            for mode in ('copy', 'lazy', 'ignore', 'peekcopy'):
+                out.append(('wsgi-' + mode, n, M, True, None))
     # multipart content type: the body is parsed while it is buffered; it must still arrive byte-exact
     for fam in ((-1,) if tier == 'quick' else (-1, -2)):
         for M in ([3, 8, 64] if tier == 'quick' else [2, 3, 5, 8, 13, 64]):
@@ -141,13 +146,32 @@ def run_component(om, ex, n, CL, M):
     return obs
 
 
-def run_wsgi(om, ex, n, CL, M):
+def run_wsgi(om, ex, n, CL, M, mode='echo'):
     data = data_of(n)
     stream = ChoiceStream(ex, data, _src_prefix(), menu_cap=8 if n < 0 else None)
     app = om.Ombott({'max_memfile_size': M})
     seen = {}
 
     def h():
+        if mode == 'ignore':
+            return b'ignored'
+        if mode == 'lazy':
+            def g():
+                yield b'>'
+                seen['content'] = app.request.body.read()       # the body is looked at only while the answer is streamed
+                seen['again'] = app.request.body.read()
+                yield seen['content']
+            return g()
+        if mode == 'copy':
+            cp = app.request.copy()                               # the body is reached through a copy of the request only
+            seen['content'] = cp.body.read()                      # (the original and a copy taken before anything was buffered are two
+            seen['again'] = cp.body.read()                        #  readers of one one-shot stream: using both is not judged)
+            return seen['content']
+        if mode == 'peekcopy':
+            seen['peek'] = app.request.body.read(1)
+            seen['content'] = app.request.copy().body.read()      # a copy taken after the original was partly read
+            seen['again'] = app.request.body.read()
+            return seen['content']
         seen['content'] = app.request.body.read()
         seen['again'] = app.request.body.read()
         return seen['content']
@@ -183,18 +207,20 @@ def judge(kind, obs, n, CL, M):
             return 'overread', (f'read({req}) issued after {delivered} of Content-Length={CL} bytes were delivered '
                                 f'(only {limit - delivered} may still be requested)')
         delivered += k
-    if obs.get('content') != exp:
-        return 'content', f'body.read() gave {obs.get("content")!r}, expected {exp!r}'
-    if obs.get('again') != exp:
-        return 'reread', f'second access to body gave {obs.get("again")!r}, expected {exp!r}'
+    if kind != 'wsgi-ignore':
+        if obs.get('content') != exp:
+            return 'content', f'body.read() gave {obs.get("content")!r}, expected {exp!r}'
+        if obs.get('again') != exp:
+            return 'reread', f'second access to body gave {obs.get("again")!r}, expected {exp!r}'
     if kind == 'comp':
         if not obs.get('replaced'):
             return 'not-replaced', 'environ["wsgi.input"] was not replaced by the buffered body'
         if obs.get('wsgi_input') != exp:
             return 'wsgi-input', f'buffered wsgi.input holds {obs.get("wsgi_input")!r}, expected {exp!r}'
     else:
-        if obs.get('status') != '200 OK' or obs.get('resp_body') != exp:
-            return 'wsgi-response', f'handler echo gave {obs.get("status")} {obs.get("resp_body")!r}, expected 200 {exp!r}'
+        want = {'wsgi-lazy': b'>' + exp, 'wsgi-ignore': b'ignored'}.get(kind, exp)
+        if obs.get('status') != '200 OK' or obs.get('resp_body') != want:
+            return 'wsgi-response', f'handler answer was {obs.get("status")} {obs.get("resp_body")!r}, expected 200 {want!r}'
     return None
 
 
@@ -248,7 +274,7 @@ def work(spec):
     if kind == 'bytesio':
         work_bytesio(res, om)
         return res
-    runner = run_component if kind == 'comp' else run_wsgi
+    runner = run_component if kind == 'comp' else (lambda om_, e_, n_, cl_, m_: run_wsgi(om_, e_, n_, cl_, m_, kind[5:] or 'echo'))
     for CL in (cls or cls_for(n)):
         ex = EnvExplorer(merge=merge, bound=bound, horizon=60 * (len(data_of(n)) + 3), max_execs=20000)
         for choices, obs in ex.explore(lambda e: runner(om, e, n, CL, M)):
@@ -258,7 +284,7 @@ def work(spec):
             if any(choices):
                 c['short_read_execs'] += 1
                 res['nontrivial'] += 1
-            if kind == 'wsgi':
+            if kind.startswith('wsgi'):
                 c['wsgi_execs'] += 1
             if obs.get('kind'):
                 c['kind_' + obs['kind']] += 1
@@ -293,7 +319,7 @@ def replay(case):
             return None
         return (f'wsgi.input = io.BytesIO({data!r}), Content-Length={case["CL"]}, max_memfile_size={case["M"]}: body.read() gives '
                 f'{obs.get("content")!r} (second access {obs.get("again")!r}, exception {obs["exc"]}); expected {exp!r}')
-    runner = run_component if case['kind'] == 'comp' else run_wsgi
+    runner = run_component if case['kind'] == 'comp' else (lambda om_, e_, n_, cl_, m_: run_wsgi(om_, e_, n_, cl_, m_, case['kind'][5:] or 'echo'))
     n, CL, M = case['n'], case['CL'], case['M']
     ex = EnvExplorer(merge=False, horizon=60 * (len(data_of(n)) + 3))
     obs = ex.replay(lambda e: runner(om, e, n, CL, M), case['choices'])
@@ -301,5 +327,7 @@ def replay(case):
     if v is None:
         return None
     answers = [k for _, k in obs['calls']]
-    return (f'{case["kind"]}: data={data_of(n)!r} Content-Length={CL} max_memfile_size={M}; stream answered the '
+    how = {'wsgi-copy': ' (handler reads request.copy().body)', 'wsgi-lazy': ' (handler returns a generator that reads request.body after its first chunk)',
+           'wsgi-ignore': ' (handler does not look at the body)', 'wsgi-peekcopy': ' (handler reads 1 byte of request.body, then request.copy().body)'}.get(case['kind'], '')
+    return (f'{case["kind"]}{how}: data={data_of(n)!r} Content-Length={CL} max_memfile_size={M}; stream answered the '
             f'reads {[r for r, _ in obs["calls"]]} with {answers} bytes: {v[1]}')
